@@ -148,7 +148,7 @@ func loopsRangingOver(fn *ssa.Function, match func(ssa.Value) bool) []*ssa.Basic
 type txAnchors struct {
 	txState                                 *types.Var // client.Tx.State
 	txTx, txOutputs                         *types.Var
-	safe, unsafe, cancelled, depth, proof  *types.Var // client.TxState.*
+	safe, unsafe, cancelled, depth, proof   *types.Var // client.TxState.*
 	updTxID, updState                       *types.Var // client.TxUpdate.*
 	clientTx, clientTxUpdate, clientTxState *types.Named
 }
